@@ -480,6 +480,8 @@ func fullChannel(t *testing.T, which string) (out outcome) {
 
 func TestCheck(t *testing.T) {
 	r := vf.Start("C13", "exploration")
+	// supplement (sampling, decides nothing): free-running executions of the same loops under the Go race detector
+	r.RacePass(vf.Pick(r, 3, 40), "github.com/evstack/ev-node/")
 	if r.RunShards(16) { // bubble-heavy: one process per shard of the exploration
 		return
 	}
@@ -494,7 +496,7 @@ func TestCheck(t *testing.T) {
 	budgets := vf.Pick(r, map[string]int{"sched": 1, "stop": 1, "midstop": 1, "ioerr": 1, "da": 1}, map[string]int{"sched": 2, "stop": 1, "midstop": 1, "ioerr": 1, "da": 1})
 	total := vf.Pick(r, 2, 3)
 	r.Assume = []string{
-		"virtual time; scheduling granularity = environment calls (datastore, DA, executor, sequencer, P2P stores) plus gated sends into the sync loop's input channels; plain memory accesses between two gates are atomic, so DATA RACES ARE NOT DECIDED by this enumeration",
+		"virtual time; scheduling granularity = environment calls (datastore, DA, executor, sequencer, P2P stores) plus gated sends into the sync loop's input channels; plain memory accesses between two gates are atomic, so DATA RACES ARE NOT DECIDED by this enumeration; as a supplement outside the enumeration the same ten loops (plus concurrent read accessors) run free (no scheduler, no lock shim) under the Go race detector for a grid of configurations x stop instants (coverage.race_supplement; sampling of interleavings) and every report that involves repository code is reported as clause data-race",
 		"the worker fan-out/join of FullNode.Run (node/full.go) is not executed here (libp2p goroutines cannot run in a bubble); it is modelled: the ten loops are started as Run starts them, the error channel has the capacity read from node/full.go, it is read once (first fatal error => cancel) and never after the cancel, and the join is 'every loop has returned'; a source whose join has another shape is a machinery error",
 		"executor doubles either ignore the context or (configuration) fail calls made with a cancelled context, as a remote execution client does",
 		"a stop is explored at every 100 ms boundary (combined with the other deviations) and, on otherwise default executions, at every scheduling point in the middle of the activities (then only the stop behaviour is judged); 'promptly' = within one block interval of virtual time",
@@ -541,11 +543,15 @@ func TestCheck(t *testing.T) {
 	}
 	if r.ReplayPath() != "" {
 		var h struct {
-			Which   string
-			Choices []explore.Point
+			Which      string
+			RaceReport string
+			Choices    []explore.Point
 		}
 		if _, err := r.LoadReplay(&h); err != nil {
 			r.EngineError(err.Error())
+		} else if h.RaceReport != "" {
+			// a recorded race cannot be replayed deterministically: the sampling pass is run again (more rounds)
+			r.RacePassAlways(40, "github.com/evstack/ev-node/")
 		} else if h.Which != "" {
 			if o := fullChannel(t, h.Which); o.fail != nil {
 				r.Report(vf.Violation{Clause: o.fail.Clause, Tags: o.tags, Msg: o.fail.Msg, History: h})
